@@ -120,7 +120,16 @@ impl MultiWorld {
         for (i, c) in self.conns.iter().enumerate() {
             match c {
                 Some(c) => match rows.iter().find(|r| r.id == c.id) {
-                    Some(r) => s.push_str(&format!("c{}: {} db={} multi={} queued={} watched={}\n", i, r.state, r.db, r.in_multi, r.queued, r.watched)),
+                    Some(r) => {
+                        // hidden implementation state that decides a later EXEC: for every watched key whether its
+                        // baseline is already behind the key's modification counter (two histories may only be merged
+                        // if they agree on it)
+                        let w: Vec<String> = r.watched_detail.iter().map(|(db, key, base)| {
+                            let (_, counter) = srv.h.storage.verif_watch_state(*db, key);
+                            format!("{}:{}:{}", db, resp::show_bytes(key), if counter > *base { "stale" } else { "fresh" })
+                        }).collect();
+                        s.push_str(&format!("c{}: {} db={} multi={} queued={} watched={:?}\n", i, r.state, r.db, r.in_multi, r.queued, w))
+                    }
                     None => s.push_str(&format!("c{}: gone\n", i)),
                 },
                 None => s.push_str(&format!("c{}: closed\n", i)),
